@@ -24,6 +24,32 @@ fn run_cli(args: &[&str]) -> Run {
     }
 }
 
+/// `--output FILE` must change nothing but the destination: the file holds exactly what the plain run printed (minus the
+/// newline `println!` adds for trees; `distance` / `matrix` write the same bytes), stdout stays empty, the exit status is
+/// the same.  The file EXISTS BEFOREHAND with longer content (a re-run of a pipeline into the same path): nothing of it
+/// may survive.
+fn check_output_option(sub: &str, args: &[&str], plain: &Run, out: &str, tree_output: bool, ctx: &str, rep: &mut Report) {
+    if plain.code != Some(0) {
+        return;
+    }
+    let junk = "STALE CONTENT OF AN EARLIER RUN;\n".repeat(1 + plain.stdout.len() / 8);
+    if std::fs::write(out, &junk).is_err() {
+        return;
+    }
+    let mut a: Vec<&str> = args.to_vec();
+    a.push("-o");
+    a.push(out);
+    let r2 = run_cli(&a);
+    let content = std::fs::read_to_string(out).unwrap_or_else(|_| "<unreadable>".into());
+    let want = if tree_output { plain.stdout.strip_suffix('\n').unwrap_or(&plain.stdout).to_string() } else { plain.stdout.clone() };
+    rep.count(&format!("output-option:{sub}"));
+    if r2.code != Some(0) || !r2.stdout.is_empty() || content != want {
+        let sig = if content.contains("STALE CONTENT") { format!("{sub}:stale-content-survives") } else { sub.to_string() };
+        rep.oracle("output-option", &sig, &format!("{ctx} -o OUT   (OUT existed before, with longer content)"), &format!("exit {:?} stdout {:?} file {:?} expected {:?}", r2.code, r2.stdout, content.chars().take(400).collect::<String>(), want));
+    }
+    let _ = std::fs::remove_file(out);
+}
+
 fn tmp(dir: &str, k: &mut usize, text: &str) -> String {
     *k += 1;
     let p = format!("{dir}/t{}.nwk", *k);
@@ -180,6 +206,7 @@ pub fn run(thorough: bool, seed: u64, driver: &str, rep: &mut Report) {
                         }
                         // -o writes the same content without the println newline
                         let out = format!("{dir}/m{k}.phy");
+                        let _ = std::fs::write(&out, "STALE CONTENT OF AN EARLIER RUN\n".repeat(2 + w.len() / 8));
                         let mut a2 = args.clone();
                         a2.push("-o");
                         a2.push(&out);
@@ -217,6 +244,7 @@ pub fn run(thorough: bool, seed: u64, driver: &str, rep: &mut Report) {
             }
             let r = run_cli(&args);
             rep.count("runs:distance");
+            check_output_option("distance", &args, &r, &format!("{dir}/o{k}.tsv"), false, &format!("{ctx0}\nphylotree distance FILE {picks:?}"), rep);
             let dists = leaf_dists(&t);
             let mut want = "Seq1\tSeq2\tDistance\n".to_string();
             let mut expect_fail = false;
@@ -293,6 +321,7 @@ pub fn run(thorough: bool, seed: u64, driver: &str, rep: &mut Report) {
             let r = run_cli(&a);
             rep.count("runs:collapse");
             let ctx = format!("{ctx0}\nphylotree collapse FILE {thr}{}", if excl { " -e" } else { "" });
+            check_output_option("collapse", &a, &r, &format!("{dir}/o{k}.nwk"), true, &ctx, rep);
             let got = if r.code == Some(0) { rose_of_text(&r.stdout) } else { None };
             // contract: topology, names, comments unchanged; a length becomes 0 iff it was below the threshold
             // (and the node is not an excluded tip), else it is unchanged
@@ -327,6 +356,7 @@ pub fn run(thorough: bool, seed: u64, driver: &str, rep: &mut Report) {
             let r = run_cli(&["rescale", &format!("{kf}"), &file]);
             rep.count("runs:rescale");
             let ctx = format!("{ctx0}\nphylotree rescale {kf} FILE");
+            check_output_option("rescale", &["rescale", &format!("{kf}"), &file], &r, &format!("{dir}/o{k}.nwk"), true, &ctx, rep);
             let mut want = t.clone();
             want.for_each_mut(&mut |x, _, _| x.len = x.len.map(|l| l * kf as f64), true, 0);
             let got = if r.code == Some(0) { rose_of_text(&r.stdout) } else { None };
@@ -375,6 +405,7 @@ pub fn run(thorough: bool, seed: u64, driver: &str, rep: &mut Report) {
             let r = run_cli(&args);
             rep.count("runs:remove");
             let ctx = format!("{ctx0}\nphylotree remove FILE {}", picks.join(" "));
+            check_output_option("remove", &args, &r, &format!("{dir}/o{k}.nwk"), true, &ctx, rep);
             let got = if r.code == Some(0) { rose_of_text(&r.stdout) } else { None };
             // does the library refuse? (compress on a mixed present/absent pair)
             let lib_ok = {
@@ -447,9 +478,13 @@ pub fn run(thorough: bool, seed: u64, driver: &str, rep: &mut Report) {
                     }
                     // -o
                     let out = format!("{dir}/r{k}.nwk");
+                    let _ = std::fs::write(&out, "STALE CONTENT OF AN EARLIER RUN;\n".repeat(2 + r.stdout.len() / 8));
                     let r2 = run_cli(&["resolve", &file, "-o", &out]);
                     let content = std::fs::read_to_string(&out).unwrap_or_default();
-                    if r2.code != Some(0) || !r2.stdout.is_empty() || rose_of_text(&content).is_none() || content.ends_with('\n') {
+                    // the resolution is random, so the file is not compared with the plain run: it must be exactly one tree in
+                    // normal form (what the library writes for what it parses), with nothing before or after it
+                    let normal = Tree::from_newick(&content).ok().and_then(|p| p.to_newick().ok()).map_or(false, |w| w == content);
+                    if r2.code != Some(0) || !r2.stdout.is_empty() || rose_of_text(&content).is_none() || content.ends_with('\n') || !normal {
                         rep.oracle("output-option", "resolve", &ctx, &format!("exit {:?} stdout {:?} file {:?}", r2.code, r2.stdout, content));
                     }
                     let _ = std::fs::remove_file(&out);
